@@ -24,7 +24,7 @@ def exec_consts(**kw):
     d = {"Types": "<- TypesExec", "Roots": "<- RootsExec", "MaxSel": "= 4", "MaxDepth": "= 3", "MaxFrags": "= 0",
          "MaxOps": "= 1", "OpTypes": '= {"query"}', "FieldAlpha": "<- AlphaBasic", "Aliases": '= {"", "z"}',
          "Conds": '= {""}', "DirOpts": "<- NoDirs", "ArgOpts": "<- ArgOptsNone", "VarTypes": "<- VarTypesStd",
-         "VarVals": "<- VarValsStd", "MaxOverlay": "= 1", "TRSets": "<- NoTR"}
+         "VarVals": "<- VarValsStd", "MaxOverlay": "= 1", "TRSets": "<- NoTR", "FalsyOverlays": "= FALSE"}
     d.update(kw)
     return d
 
@@ -34,6 +34,7 @@ cfg("MC_exec_basic.cfg", exec_consts(), EXEC_INV)
 cfg("MC_exec_abstract.cfg", exec_consts(FieldAlpha="<- AlphaAbstract", Aliases='= {""}', Conds='= {"", "A", "B", "P", "C"}', MaxSel="= 4"), EXEC_INV)
 cfg("MC_exec_typeres.cfg", exec_consts(FieldAlpha="<- AlphaTypeRes", Aliases='= {""}', Conds='= {"", "A", "B"}', MaxSel="= 3", TRSets="<- AllTR"), EXEC_INV)
 cfg("MC_exec_widen.cfg", exec_consts(FieldAlpha="<- AlphaWiden", Aliases='= {""}', Conds='= {"P", "A"}', MaxSel="= 4", MaxOverlay="= 0"), EXEC_INV)
+cfg("MC_exec_falsy.cfg", exec_consts(FieldAlpha="<- AlphaFalsy", Aliases='= {"", "z"}', Conds='= {"", "B"}', MaxSel="= 3", FalsyOverlays="= TRUE"), EXEC_INV)
 cfg("MC_exec_lists.cfg", exec_consts(FieldAlpha="<- AlphaLists", Aliases='= {""}', MaxSel="= 3"), EXEC_INV)
 cfg("MC_exec_args.cfg", exec_consts(FieldAlpha="<- AlphaArgs", ArgOpts="<- ArgOptsStd", Aliases='= {"", "z"}', MaxSel="= 3", MaxOverlay="= 0"), EXEC_INV)
 cfg("MC_exec_frag.cfg", exec_consts(FieldAlpha="<- AlphaFrag", Aliases='= {""}', Conds='= {"T", "P", "A", "Query"}', MaxFrags="= 2", MaxSel="= 4", MaxOverlay="= 0"), EXEC_INV)
